@@ -25,8 +25,13 @@ pub const KINDS: &[&str] = &[
     "postfix-operator",
     "context-function-call",
     "context-function-bare-name",
+    "context-function-bare-name-in-list",
+    "context-function-bare-name-in-membership",
     "context-function-assignment-target",
 ];
+
+/// the two public ways to evaluate: parse_expression(..).exec(ctx) and execute(.., ctx)
+pub const ENTRIES: &[&str] = &["parse+exec", "execute"];
 
 pub const ACTIONS: &[&str] = &[
     "parse",
@@ -68,6 +73,8 @@ fn program(kind: &str) -> (&'static str, Value) {
         "setter-operator-bound-target" => ("v hset 2 ; v", num(42)),
         "postfix-operator" => ("1 hpo", num(42)),
         "context-function-bare-name" => ("h + 1", num(43)),
+        "context-function-bare-name-in-list" => ("[v, h, v]", Value::List(vec![num(100), num(42), num(100)])),
+        "context-function-bare-name-in-membership" => ("42 in [v, h] ? 1 : 2", num(1)),
         _ => ("h = 1 ; h", num(1)),
     }
 }
@@ -187,12 +194,14 @@ fn act(kind: &str, action: &'static str, own: Option<Context>) {
     }
 }
 
-fn cases() -> Vec<(&'static str, &'static str)> {
+fn cases() -> Vec<(&'static str, &'static str, &'static str)> {
     let mut v = Vec::new();
-    for k in KINDS {
-        for a in ACTIONS {
-            if applies(k, a) {
-                v.push((*k, *a));
+    for e in ENTRIES {
+        for k in KINDS {
+            for a in ACTIONS {
+                if applies(k, a) {
+                    v.push((*k, *a, *e));
+                }
             }
         }
     }
@@ -233,14 +242,18 @@ impl Prop for C14 {
         let cs = cases();
         for i in a..b {
             out.idx = Some(i);
-            let (kind, action) = cs[i as usize];
-            let case = format!("reentry|{} x {}", kind, action);
+            let (kind, action, entry) = cs[i as usize];
+            let case = format!("reentry|{} x {} via {}", kind, action, entry);
             expression_engine::verif_hooks::sync::clear_self_deadlock();
             RAN.store(0, Ordering::SeqCst);
             register_global(kind, action);
             let (prog, want) = program(kind);
             let mut ctx = make_context(kind, action);
-            let r = guarded(|| parse_expression(prog).and_then(|t| t.exec(&mut ctx)).map_err(|e| format!("{:?}", e)));
+            let r = if entry == "execute" {
+                guarded(|| execute(prog, ctx).map_err(|e| format!("{:?}", e)))
+            } else {
+                guarded(|| parse_expression(prog).and_then(|t| t.exec(&mut ctx)).map_err(|e| format!("{:?}", e)))
+            };
             out.evals += 1;
             out.count("states", 1);
             out.count("transitions", RAN.load(Ordering::SeqCst) as u64);
@@ -250,25 +263,25 @@ impl Prop for C14 {
             match r {
                 _ if deadlock => {
                     out.outcomes.insert("self-deadlock".into());
-                    out.fail(format!("self-deadlock:{}:{}", kind, action), case, "a thread tried to lock a mutex it already holds while the handler re-entered the engine");
+                    out.fail(format!("self-deadlock:{}:{}:{}", kind, action, entry), case, "a thread tried to lock a mutex it already holds while the handler re-entered the engine");
                 }
                 Res::Ok(v) if v == want && RAN.load(Ordering::SeqCst) >= 1 => {
                     out.outcomes.insert(format!("completed:{}", kind));
                     out.count("validated", 1);
                 }
-                Res::Ok(v) => out.fail(format!("wrong-result:{}:{}", kind, action), case, format!("expected {:?} got {:?} (handler ran {} times)", want, v, RAN.load(Ordering::SeqCst))),
-                Res::Err(e) => out.fail(format!("error:{}:{}", kind, action), case, e),
-                Res::Panic(m) => out.fail(format!("panic:{}:{}", kind, action), case, m),
+                Res::Ok(v) => out.fail(format!("wrong-result:{}:{}:{}", kind, action, entry), case, format!("expected {:?} got {:?} (handler ran {} times)", want, v, RAN.load(Ordering::SeqCst))),
+                Res::Err(e) => out.fail(format!("error:{}:{}:{}", kind, action, entry), case, e),
+                Res::Panic(m) => out.fail(format!("panic:{}:{}:{}", kind, action, entry), case, m),
             }
         }
     }
     fn case_text(&self, _tier: Tier, _stage: usize, i: u64) -> String {
-        let (k, a) = cases()[i as usize];
-        format!("{} x {}", k, a)
+        let (k, a, e) = cases()[i as usize];
+        format!("{} x {} via {}", k, a, e)
     }
     fn crash_key(&self, _tier: Tier, _stage: usize, i: u64, how: &str) -> String {
-        let (k, a) = cases()[i as usize];
-        format!("{}:{}:{}", if how == "hang" { "deadlock-or-hang" } else { "abort" }, k, a)
+        let (k, a, e) = cases()[i as usize];
+        format!("{}:{}:{}:{}", if how == "hang" { "deadlock-or-hang" } else { "abort" }, k, a, e)
     }
     fn min_outcomes(&self) -> usize {
         4
